@@ -20,7 +20,7 @@ RULE = ('amounts n in [0, 21*10^14] smallest units: uniform, >=10^15, top-of-ran
         'network argument, trailing zeros), format (Value.from_satoshi(n, network).str(den, decimals) must denote n '
         'and parse back to n), numeric (Value(number, denominator).value_sat, from_satoshi(n, denominator=den)), '
         'output (Output(value=text|Value|int), Transaction.add_output, amount bytes of raw()). Sub-unit denominators '
-        '(n, msat, usat) only on whole smallest units. [Value histories: conversions interleaved with += / -= / + / - on one object against an integer model] Non-trivial = n >= 10^12 or a denominator other than "" and '
+        '(n, msat, usat) only on whole smallest units. [amount texts with runs of blanks / tabs between number and unit and blanks around] [Value histories: conversions interleaved with += / -= / + / - on one object against an integer model] Non-trivial = n >= 10^12 or a denominator other than "" and '
         '"sat"; distinct by (path, api, n, denominator, currency code).')
 ASSUMPTIONS = ['ref/money.UNIT_EXP gives the meaning of each denominator symbol (SI prefixes; sat=1e-8, finney=1e-7, '
                'msat=1e-11, usat=1e-14)',
@@ -128,7 +128,10 @@ def check_parse(ctx, case):
     net = case.get('net')
     numtext = _amount_text(n, den, case.get('pad', 0))
     unit = den + (code if api not in ('v2s_net', 'value_net') else '')
-    text = numtext + (' ' + unit if unit else '')
+    # white space: between number and unit any run of blanks / tabs, around the text blanks (str.split semantics)
+    sep, wrap = {0: (' ', ('', '')), 1: ('  ', ('', '')), 2: ('\t', ('', '')), 3: (' \t ', (' ', '')),
+                 4: ('    ', ('', ' ')), 5: (' ', ('  ', ' '))}[case.get('ws', 0)]
+    text = wrap[0] + numtext + (sep + unit if unit else '') + wrap[1]
     try:
         if api == 'v2s':
             got = values.value_to_satoshi(text)
@@ -583,9 +586,9 @@ def parse_block_strategy(count):
     names = list(_nets().keys())
 
     def build(t):
-        n0, step, code, api, pad, net = t
+        n0, step, code, api, pad, net, ws = t
         case = {'kind': 'block', 'path': 'parse', 'n0': n0, 'step': step, 'count': count, 'dens': 'all',
-                'code': code, 'api': api, 'pad': pad}
+                'code': code, 'api': api, 'pad': pad, 'ws': ws}
         if api in ('v2s_net', 'value_net'):
             case['net'] = net
             case['code'] = ''
@@ -598,7 +601,8 @@ def parse_block_strategy(count):
                 case['net'] = same[n0 % len(same)]
         return case
     return st.tuples(amounts_strategy(), steps_strategy(), code_variants(), st.sampled_from(PARSE_APIS),
-                     st.sampled_from([0, 0, 0, 1, 3]), st.sampled_from(names)).map(build)
+                     st.sampled_from([0, 0, 0, 1, 3]), st.sampled_from(names),
+                     st.sampled_from([0, 0, 0, 1, 2, 3, 4, 5])).map(build)
 
 
 def format_block_strategy(count):
